@@ -1,3 +1,4 @@
-# C15: both Voronoi grid constructions; serial parts on flavour plain, threaded part on flavour omp
-$(eval $(call HARNESS,c15_voronoi,$(V)/harness/C15/c15_voronoi.cpp,plain,-O2,))
-$(eval $(call HARNESS,c15_voronoi_omp,$(V)/harness/C15/c15_voronoi.cpp,omp,-O2,))
+# C15: both Voronoi grid constructions; serial parts on flavour plain, threaded part on flavour omp.
+# -fno-access-control: the precondition monitor reads the rescaled box / positions of NewVoronoiGrid.
+$(eval $(call HARNESS,c15_voronoi,$(V)/harness/C15/c15_voronoi.cpp,plain,-O2 -fno-access-control,))
+$(eval $(call HARNESS,c15_voronoi_omp,$(V)/harness/C15/c15_voronoi.cpp,omp,-O2 -fno-access-control,))
